@@ -7,11 +7,34 @@ fn cmd(u: &mut Uci, line: &str) -> Result<(), String> {
     u.execute_command(c)
 }
 
+/// the legal move a coordinate string names, found WITHOUT the engine's own notation matching (`find_move` / `to_notation`):
+/// the string is read here (files a-h, ranks 1-8, promotion letter) and compared with the fields of the generated moves
+fn pick(b: &mut Board, s: &str) -> Option<crate::board::Ply> {
+    use crate::board::piece::Kind as K;
+    let c: Vec<char> = s.chars().collect();
+    if c.len() != 4 && c.len() != 5 { return None; }
+    let sq = |f: char, r: char| -> Option<(u8, u8)> {
+        if ('a'..='h').contains(&f) && ('1'..='8').contains(&r) { Some((r as u8 - b'1', f as u8 - b'a')) } else { None }
+    };
+    let (fr, ff) = sq(c[0], c[1])?;
+    let (tr, tf) = sq(c[2], c[3])?;
+    let promo = if c.len() == 5 { Some(c[4]) } else { None };
+    b.get_legal_moves().into_iter().find(|m| {
+        let pk = match m.promoted_to { None => None, Some(K::Queen(_)) => Some('q'), Some(K::Rook(_)) => Some('r'),
+                                       Some(K::Bishop(_)) => Some('b'), Some(K::Knight(_)) => Some('n'), Some(_) => Some('?') };
+        m.start.rank == fr && m.start.file == ff && m.dest.rank == tr && m.dest.file == tf && pk == promo
+    })
+}
+
 /// C08: a position command with an illegal move anywhere in its list is refused as a whole; an accepted one equals
 /// playing the moves one by one; earlier commands do not matter
 #[test]
 fn c08_position_all_or_nothing() {
-    let games: [(&str, &[&str]); 4] = [
+    let games: [(&str, &[&str]); 7] = [
+        // under-promotions whose piece matters afterwards: the knight gives check / the bishop moves diagonally / the rook moves straight
+        ("fen 4k3/P6P/8/8/8/8/p6p/4K3 w - - 0 1", &["a7a8b", "a2a1b", "a8d5", "a1d4", "h7h8n", "h2h1n", "h8g6", "h1g3"]),
+        ("fen 8/2P2k2/8/8/8/8/2p2K2/8 w - - 0 1", &["c7c8n", "c2c1r", "c8d6", "f7e6", "d6e4", "c1c4"]),
+        ("fen r3k3/1P6/8/8/8/8/1p6/R3K3 w Qq - 0 1", &["b7a8b", "b2a1n", "a8e4", "a1b3"]),
         ("startpos", &["e2e4", "e7e5", "g1f3", "b8c6", "f1c4", "f8c5", "e1g1", "g8f6"]),
         ("fen r3k2r/p1ppqpb1/bn2pnp1/3PN3/1p2P3/2N2Q1p/PPPBBPPP/R3K2R w KQkq - 0 1", &["e1c1", "e8g8", "d5e6", "b4c3"]),
         ("fen 4k3/P6P/8/8/8/8/p6p/4K3 w - - 0 1", &["a7a8n", "h2h1n", "h7h8r"]),
@@ -33,7 +56,7 @@ fn c08_position_all_or_nothing() {
         cmd(&mut u, "position startpos moves d2d4 d7d5").unwrap();
         for k in 0..=moves.len() {
             if k > 0 {
-                let p = reference.find_move(moves[k - 1]).expect("demo game move is legal");
+                let p = pick(&mut reference, moves[k - 1]).expect("demo game move is legal");
                 reference.make_move(p);
             }
             let line = format!("position {} moves {}", start, moves[..k].join(" "));
@@ -52,9 +75,9 @@ fn c08_position_all_or_nothing() {
                     // only use corruptions that really are illegal at that point
                     let mut probe = if *start == "startpos" { BoardBuilder::construct_starting_board().build() } else { Board::from_fen(&start[4..]) };
                     let mut legal_prefix = true;
-                    for m in &ms[..j] { let p = probe.find_move(m).unwrap(); probe.make_move(p); }
+                    for m in &ms[..j] { let p = pick(&mut probe, m).unwrap(); probe.make_move(p); }
                     // a legal move is written with 4 or 5 characters; anything else is illegal whatever the position
-                    if (bad.len() == 4 || bad.len() == 5) && probe.find_move(bad).is_ok() { legal_prefix = false; }
+                    if pick(&mut probe, bad).is_some() { legal_prefix = false; }
                     if !legal_prefix { continue; }
                     let line2 = format!("position {} moves {}", start, ms.join(" "));
                     let r2 = cmd(&mut u, &line2);
